@@ -23,6 +23,10 @@ pub struct WireReq {
     pub uri: String,
     pub headers: Vec<(String, Vec<u8>)>,
     pub body: Vec<u8>,
+    /// protocol version the request is presented with: 0 = HTTP/1.1 (ambient configuration B picks one), 9, 10, 11,
+    /// 2, 3 = that version explicitly
+    #[serde(default)]
+    pub version: u8,
 }
 
 impl WireReq {
@@ -31,12 +35,12 @@ impl WireReq {
             Some(q) => format!("{}?{}", w.path, q),
             None => w.path.clone(),
         };
-        WireReq { method: w.method.clone(), uri, headers: w.headers.clone(), body: w.body.clone() }
+        WireReq { method: w.method.clone(), uri, headers: w.headers.clone(), body: w.body.clone(), version: 0 }
     }
 
     /// Readable rendering for reports.
     pub fn render(&self) -> String {
-        let mut s = format!("{} {}\n", self.method, self.uri);
+        let mut s = format!("{} {}{}\n", self.method, self.uri, match self.version { 0 => String::new(), v => format!(" (HTTP version code {})", v) });
         for (n, v) in &self.headers {
             s.push_str(&format!("{}: {}\n", n, String::from_utf8_lossy(v)));
         }
@@ -50,6 +54,14 @@ impl WireReq {
         let method = http::Method::from_bytes(self.method.as_bytes()).map_err(|e| format!("method: {}", e))?;
         let uri: http::Uri = self.uri.parse().map_err(|e| format!("uri: {}", e))?;
         let mut b = http::Request::builder().method(method).uri(uri);
+        b = match self.version {
+            9 => b.version(http::Version::HTTP_09),
+            10 => b.version(http::Version::HTTP_10),
+            11 => b.version(http::Version::HTTP_11),
+            2 => b.version(http::Version::HTTP_2),
+            3 => b.version(http::Version::HTTP_3),
+            _ => b,
+        };
         for (n, v) in &self.headers {
             let name = http::header::HeaderName::from_bytes(n.as_bytes()).map_err(|e| format!("header name: {}", e))?;
             let value = http::header::HeaderValue::from_bytes(v).map_err(|e| format!("header value: {}", e))?;
@@ -318,7 +330,7 @@ pub fn validate(w: &WireReq, cfg: &Cfg, provider: &mut Provider) -> SutResult {
                         v.set_sensitive(true);
                     }
                 }
-                match crate::core::h64(&(&w.uri, &w.headers, w.body.len(), "version")) % 3 {
+                match if w.version != 0 { 2 } else { crate::core::h64(&(&w.uri, &w.headers, w.body.len(), "version")) % 3 } {
                     0 => *req.version_mut() = http::Version::HTTP_2,
                     1 => *req.version_mut() = http::Version::HTTP_3,
                     _ => {}
@@ -411,6 +423,51 @@ pub fn token_principal_provider(secrets: Vec<(String, String)>) -> Provider {
                 Ok(GetSigningKeyResponse::builder().principal(principal).signing_key(key).build().unwrap())
             }
             None => Err(Box::new(SignatureError::InvalidClientTokenId("The security token included in the request is invalid".into()))),
+        }
+    }))
+}
+
+/// The identity a provider attaches to its answer: 0 none, 1 IAM user, 2 assumed role, 3 federated user, 4 root user,
+/// 5 service, 6 canonical user, 7 a user and an assumed role together.
+pub fn principal_of(kind: u8) -> scratchstack_aws_signature::principal::Principal {
+    use scratchstack_aws_signature::principal::{AssumedRole, CanonicalUser, FederatedUser, Principal, PrincipalIdentity, RootUser, Service, User};
+    let user = || User::new("aws", "123456789012", "/", "alice").unwrap();
+    let role = || AssumedRole::new("aws", "123456789012", "deploy", "session-1").unwrap();
+    match kind {
+        1 => user().into(),
+        2 => role().into(),
+        3 => FederatedUser::new("aws", "123456789012", "fred").unwrap().into(),
+        4 => RootUser::new("aws", "123456789012").unwrap().into(),
+        5 => Service::new("lambda", None, "amazonaws.com").unwrap().into(),
+        6 => CanonicalUser::new("9da4bcba2132ad952bba3c8ecb37e668d99b310ce313da30c98aba4cdf009a7d").unwrap().into(),
+        7 => Principal::new(vec![PrincipalIdentity::from(user()), PrincipalIdentity::from(role())]),
+        _ => Principal::new(vec![]),
+    }
+}
+pub const PRINCIPAL_KINDS: u8 = 8;
+
+/// Key database indexed by the exact (access key, session token) pair, as stores of temporary credentials are; a pair
+/// it does not hold is answered with `unknown`. The answer carries `principal_of(principal)`.
+pub fn pair_db_provider(entries: Vec<(String, Option<String>, String)>, unknown: env::ErrSpec, principal: u8) -> Provider {
+    use scratchstack_aws_signature::GetSigningKeyResponse;
+    Provider::new(Box::new(move |r| {
+        let hit = entries.iter().find(|(ak, tok, _)| ak == r.access_key() && tok.as_deref() == r.session_token());
+        match hit {
+            Some((_, _, secret)) => {
+                let c = refmodel::hmac::chain(
+                    secret.as_bytes(),
+                    &r.request_date().format("%Y%m%d").to_string(),
+                    r.region().as_bytes(),
+                    r.service().as_bytes(),
+                );
+                let mut b = GetSigningKeyResponse::builder();
+                b.signing_key(env::ksigning_from_bytes(c.ksigning));
+                if principal != 0 {
+                    b.principal(principal_of(principal));
+                }
+                Ok(b.build().unwrap())
+            }
+            None => Err(env::make_err(&unknown)),
         }
     }))
 }
